@@ -75,7 +75,7 @@ def check_step(R, name, default=False):
     R.sample({"env": name, "obligations": [o["name"] for o in R.obl][:8], "state_vars": R.nvars})
 
 
-def check_step_domain(R, cfg):
+def check_step_domain(R, cfg, over=None):
     """the same protocol obligations from the per-environment harness DOMAIN (ranged fields, cached mask tied by the code's own mask
     function, invariant NOT assumed): a much smaller formula than the arbitrary-dtype-range state of check_step, so that a
     wrong termination construction stays decidable where the big query goes `unknown` (PacMan: a seeded 'MID with zero discount at
@@ -83,7 +83,7 @@ def check_step_domain(R, cfg):
     from checks import drivers as D
     from envs import base
     from engine.vexpr import vs, all_, any_
-    H = base.get(cfg)
+    H = base.get(cfg, **(over or {}))
     sp = D.build_step(R, H, with_inv=False, validate=0)
     lbf = type(H.env).__name__ == "LevelBasedForaging"
     F0, F1 = np.float32(0), np.float32(1)
@@ -143,6 +143,13 @@ def jobs(tier, seed):
             continue
         for cfg in cls.QUICK[:1] + (cls.QUICK[1:] if tier == "thorough" else []):
             js.append((f"{cfg}/step@domain", "checks.C03", "check_step_domain", {"cfg": cfg}))
+        # the protocol does not depend on which pluggable reward / done function, observer or scalar option is configured: the
+        # non-default variants of the harness tables (plus C03_VARIANTS: e.g. a Minesweeper done function that plays on after a mine)
+        seen = []
+        for over in list(getattr(cls, "C03_VARIANTS", [])) + list(getattr(cls, "REWARD_VARIANTS", [])):
+            if over and str(over) not in seen:
+                seen.append(str(over))
+                js.append((f"{cls.QUICK[0]}#variant{len(seen)}/step@domain", "checks.C03", "check_step_domain", {"cfg": cls.QUICK[0], "over": over}))
     if tier == "thorough":
         js += [(f"{n}@default/step", "checks.C03", "check_step", {"name": n, "default": True}) for n in configs.DEFAULT_OK]
     return js
